@@ -4,14 +4,31 @@ package server
 //
 // One real server with client authorisation enabled (casbin model + policy file in
 // the run's directory). Client "admin" may do everything; client "bob" holds a
-// random subset of (resource, action) pairs, rewritten and reloaded mid-run. Every
-// API method is called by both; for a call the policy does not allow the harness
-// demands an error and an unchanged state digest (streams, paused and read-only
-// flags, every partition's log and HW, the cursors stream, admin's subscriptions
-// still open, nothing delivered to bob).
+// random subset of (resource, action) pairs, rewritten and reloaded mid-run; client
+// "eve" holds entries for a resource that does not exist only; "anon" is a caller
+// without an identity. Every API method is called by them; for a call the policy does
+// not allow the harness demands an error and an unchanged state digest (streams,
+// paused, read-only and resume-all flags, every partition's log and HW, the cursors
+// stream, the cursors as admin fetches them, admin's subscriptions still open,
+// nothing delivered to anybody but admin).
+//
+// Swarm dimensions (each a share of the programs, see genC15):
+//   - wire: a call carries the client's verified TLS chain as gRPC peer information and
+//     travels interceptor -> generated service handler -> API method (authz.go), instead of
+//     the identity being planted in the context;
+//   - cfgfile: authorisation is enabled through a YAML configuration file (NewConfig);
+//   - foo2: stream foo has two partitions; shapes: requests with explicit partitions,
+//     resume-all, ack policy NONE, no deadline, own ack inbox, ReadISRReplica;
+//   - curdigest: the cursors admin can fetch are part of every digest (always for cursor ops);
+//   - directed sequences: a right is used, revoked (policy file rewritten, the tree's own
+//     SIGHUP handler body run), and used again; admin pauses foo and the others try to publish /
+//     resume-subscribe; admin publishes and the others try to subscribe.
 
 import (
 	"context"
+	"crypto/tls"
+	"crypto/x509"
+	"crypto/x509/pkix"
 	"fmt"
 	"os"
 	"path/filepath"
@@ -22,6 +39,10 @@ import (
 	"time"
 
 	client "github.com/liftbridge-io/liftbridge-api/v2/go"
+	"google.golang.org/grpc"
+	"google.golang.org/grpc/credentials"
+	"google.golang.org/grpc/peer"
+	gproto "google.golang.org/protobuf/proto"
 
 	"verif.local/simrt"
 	"verif.local/simrt/hx"
@@ -43,6 +64,9 @@ m = r.sub == p.sub && r.obj == p.obj && r.act == p.act
 var c15Actions = []string{"CreateStream", "DeleteStream", "PauseStream", "SetStreamReadonly", "Subscribe", "FetchMetadata", "FetchPartitionMetadata", "Publish", "PublishToSubject", "SetCursor", "FetchCursor"}
 var c15Streams = []string{"foo", "bar", "new"}
 
+// every resource name the policy file speaks about (revoke/grant ops index into this list)
+var c15Resources = []string{"foo", "bar", "new", "*", "__cursors", "subj.foo"}
+
 // classification of every method of the client API: a new method fails the check until it is listed here
 var c15Classified = map[string]string{
 	"CreateStream": "CreateStream", "DeleteStream": "DeleteStream", "PauseStream": "PauseStream", "SetStreamReadonly": "SetStreamReadonly",
@@ -53,6 +77,44 @@ var c15Classified = map[string]string{
 	"mustEmbedUnimplementedAPIServer": "-",
 }
 
+// c15AvoidAuthzWithoutClientAuth switches off configuration files that say `tls.client.authz.enabled: true`
+// without `tls.client.auth.enabled: true`. The pinned tree read the authorisation switch from the
+// authentication key, so such a file left authorisation silently off (C15/not-in-force:file-authz-only;
+// repaired, see known_findings.json). The shape is generated; the switch remains for bisecting.
+const c15AvoidAuthzWithoutClientAuth = false
+
+// c15Target: the policy entry (action, index into c15Resources) that authorises an op of kind k on stream index si
+// (an approximation of what execC15 decides at run time: good enough to aim revoke/grant ops).
+func c15Target(k string, si int) (string, int64) {
+	switch k {
+	case "create":
+		return "CreateStream", 2
+	case "delete":
+		return "DeleteStream", 2
+	case "pause":
+		return "PauseStream", 0
+	case "readonly":
+		return "SetStreamReadonly", 0
+	case "publish", "publishasync":
+		return "Publish", int64(si % 2)
+	case "pubsubject":
+		return "PublishToSubject", 5
+	case "subscribe":
+		return "Subscribe", int64(si % 2)
+	case "subresume":
+		return "Subscribe", 0
+	case "subgroup":
+		return "Subscribe", 1
+	case "setcursor":
+		return "SetCursor", int64(si % 2)
+	case "fetchcursor":
+		return "FetchCursor", int64(si % 2)
+	case "metadata":
+		return "FetchMetadata", 3
+	}
+	return "FetchPartitionMetadata", int64(si % 2)
+}
+
 func genC15(r *simrt.Rand, tier string, idx int) *hx.Program {
 	p := &hx.Program{P: map[string]int64{}}
 	p.P["sticky"] = 95
@@ -60,11 +122,43 @@ func genC15(r *simrt.Rand, tier string, idx int) *hx.Program {
 	if r.Pct(6) {
 		p.P["nopolicy"] = 1 // authorisation switched on, but no model/policy configured: nobody is authorised to do anything
 	}
+	if r.Pct(50) {
+		p.P["wire"] = 1 // identity from the verified TLS chain in the peer information, through the interceptors and the generated handlers
+	}
+	if r.Pct(35) {
+		p.P["foo2"] = 1 // foo has two partitions
+	}
+	if r.Pct(30) {
+		p.P["curdigest"] = 1 // admin's view of the cursors is part of every digest (always for setcursor/fetchcursor)
+	}
+	if r.Pct(15) {
+		p.P["cfgfile"] = 1 + int64(r.Intn(2)) // the configuration comes from a YAML file: 1 with, 2 without client.auth.ca
+		if !c15AvoidAuthzWithoutClientAuth && r.Pct(40) {
+			p.P["cfgfile"] = 3 // authz.enabled without auth.enabled
+		}
+	}
+	shapes := r.Pct(60)
 	n := 10 + r.Intn(20)
 	if tier == "thorough" {
 		n = 10 + r.Intn(50)
 	}
 	kinds := []string{"create", "delete", "pause", "readonly", "publish", "publishasync", "pubsubject", "subscribe", "subresume", "subgroup", "setcursor", "fetchcursor", "metadata", "partmeta"}
+	other := func() string { // a caller that is not admin
+		switch k := r.Intn(100); {
+		case k < 84:
+			return "bob"
+		case k < 92:
+			return "eve" // known to the policy file, but for no resource that exists
+		}
+		return "anon" // no identity at all
+	}
+	args := func() []int64 {
+		a := []int64{int64(r.Intn(3)), int64(r.Intn(1000)), 0}
+		if shapes && r.Pct(40) {
+			a[2] = int64(r.Intn(1024))
+		}
+		return a
+	}
 	for i := 0; i < n; i++ {
 		k := r.Intn(100)
 		switch {
@@ -72,26 +166,223 @@ func genC15(r *simrt.Rand, tier string, idx int) *hx.Program {
 			p.Ops = append(p.Ops, hx.Op{K: "reload", A: []int64{int64(r.Uint64() >> 1)}})
 		case k < 12:
 			// admin prepares interesting state: pause foo / publish / cursor
-			p.Ops = append(p.Ops, hx.Op{K: []string{"pause", "publish", "setcursor", "create"}[r.Intn(4)], S: "admin", A: []int64{int64(r.Intn(3)), int64(r.Intn(1000))}})
+			p.Ops = append(p.Ops, hx.Op{K: []string{"pause", "publish", "setcursor", "create"}[r.Intn(4)], S: "admin", A: args()})
+		case k < 18:
+			// a right is used, taken away (or given) by a reload, and used again
+			kind := kinds[r.Intn(len(kinds))]
+			a := args()
+			act, res := c15Target(kind, int(a[0]))
+			change := "revoke"
+			if r.Pct(35) {
+				change = "grant"
+			}
+			p.Ops = append(p.Ops, hx.Op{K: kind, S: "bob", A: a}, hx.Op{K: change, S: act, A: []int64{res}}, hx.Op{K: kind, S: "bob", A: a})
+		case k < 22:
+			// admin pauses foo; the others must not be able to resume it by publishing or by a resuming subscription
+			pa := args()
+			pa[0] = 0
+			p.Ops = append(p.Ops, hx.Op{K: "pause", S: "admin", A: pa})
+			if r.Pct(50) {
+				p.Ops = append(p.Ops, hx.Op{K: "revoke", S: []string{"Publish", "Subscribe"}[r.Intn(2)], A: []int64{0}})
+			}
+			for _, kind := range []string{"publish", "publishasync", "subresume"} {
+				if r.Pct(70) {
+					a := args()
+					a[0] = 0
+					p.Ops = append(p.Ops, hx.Op{K: kind, S: other(), A: a})
+				}
+			}
+		case k < 25:
+			// admin publishes; the others must not receive it
+			a := args()
+			p.Ops = append(p.Ops, hx.Op{K: "publish", S: "admin", A: []int64{a[0], a[1], 0}})
+			if r.Pct(50) {
+				p.Ops = append(p.Ops, hx.Op{K: "revoke", S: "Subscribe", A: []int64{a[0] % 2}})
+			}
+			p.Ops = append(p.Ops, hx.Op{K: "subscribe", S: other(), A: a})
 		default:
-			who := "bob"
+			who := other()
 			if r.Pct(20) {
 				who = "admin"
 			}
-			p.Ops = append(p.Ops, hx.Op{K: kinds[r.Intn(len(kinds))], S: who, A: []int64{int64(r.Intn(3)), int64(r.Intn(1000))}})
+			p.Ops = append(p.Ops, hx.Op{K: kinds[r.Intn(len(kinds))], S: who, A: args()})
 		}
 	}
 	return p
 }
 
-var c15NoIdentity bool // authorisation without model/policy: the interceptors that put the client's identity into the context are not installed
+// c15env is how the harness's clients reach the server's API.
+type c15env struct {
+	h *h3
+	n *simNode
+	// wire: the client's identity travels as a verified TLS chain in the gRPC peer information and the call goes
+	// through the authorisation interceptors (when the server installs them) and the generated service handlers.
+	// Otherwise the identity is planted into the context the way the interceptors would.
+	wire bool
+	// installed: the server installs the interceptors. startAPIServer does so iff authorisation is on and model
+	// and policy are configured; the derived start-up drops grpc.NewServer together with its options, so the
+	// condition is mirrored here, not observed.
+	installed bool
+}
 
-func c15ctx(who string, d time.Duration) (context.Context, context.CancelFunc) {
-	ctx, cancel := context.WithTimeout(context.Background(), d)
-	if c15NoIdentity {
-		return ctx, cancel
+// c15refusal: the error is the server's refusal to authorise the caller (no policy entry, or no identity found).
+func c15refusal(err error) bool {
+	return err != nil && (strings.Contains(err.Error(), "not authorized") || strings.Contains(err.Error(), "Failed to retrieve client ID"))
+}
+
+func c15cert(cn string) *x509.Certificate {
+	return &x509.Certificate{Subject: pkix.Name{CommonName: cn}}
+}
+
+// ctx is the context of one call by client who ("" = a caller without identity, in the shape variant selects).
+// d == 0: the client set no deadline.
+func (e *c15env) ctx(who string, d time.Duration, variant int) (context.Context, context.CancelFunc) {
+	var ctx context.Context
+	var cancel context.CancelFunc
+	if d > 0 {
+		ctx, cancel = context.WithTimeout(context.Background(), d)
+	} else {
+		ctx, cancel = context.WithCancel(context.Background())
 	}
-	return context.WithValue(ctx, "clientID", who), cancel
+	if !e.wire {
+		if !e.installed {
+			return ctx, cancel // no interceptor: nobody puts an identity into the context
+		}
+		if who == "" && variant%2 == 0 {
+			return ctx, cancel
+		}
+		return context.WithValue(ctx, "clientID", who), cancel
+	}
+	// Every client certificate is issued by a CA whose common name is "admin": the identity is the leaf's.
+	st := tls.ConnectionState{HandshakeComplete: true}
+	issuer := c15cert("admin")
+	if who != "" {
+		st.PeerCertificates = []*x509.Certificate{c15cert(who), issuer}
+		st.VerifiedChains = [][]*x509.Certificate{{c15cert(who), issuer}}
+		if variant%2 == 1 { // a second path to another root
+			st.VerifiedChains = append(st.VerifiedChains, []*x509.Certificate{c15cert(who), c15cert("admin"), c15cert("root")})
+		}
+		e.h.s.Count("probe.identity_from_verified_chain")
+		return peer.NewContext(ctx, &peer.Peer{AuthInfo: credentials.TLSInfo{State: st}}), cancel
+	}
+	v := variant % 6
+	e.h.s.Count(fmt.Sprintf("probe.no_identity_shape.%d", v))
+	switch v {
+	case 0: // no peer information
+		return ctx, cancel
+	case 1: // a connection without TLS
+		return peer.NewContext(ctx, &peer.Peer{}), cancel
+	case 2: // TLS, no client certificate
+	case 3: // an empty chain
+		st.VerifiedChains = [][]*x509.Certificate{{}}
+	case 4: // a verified certificate without a common name
+		st.PeerCertificates = []*x509.Certificate{c15cert(""), issuer}
+		st.VerifiedChains = [][]*x509.Certificate{{c15cert(""), issuer}}
+	case 5: // a certificate naming admin was presented but not verified
+		st.PeerCertificates = []*x509.Certificate{c15cert("admin")}
+	}
+	return peer.NewContext(ctx, &peer.Peer{AuthInfo: credentials.TLSInfo{State: st}}), cancel
+}
+
+// c15wireCopy moves a message the way the wire does: marshalled by one side, unmarshalled by the other.
+func c15wireCopy(dst any, src gproto.Message) error {
+	b, err := gproto.Marshal(src)
+	if err != nil {
+		return err
+	}
+	return gproto.Unmarshal(b, dst.(gproto.Message))
+}
+
+// unary dispatches one unary call like grpc.Server.processUnaryRPC does: the generated handler of the
+// service descriptor decodes the request and calls the API method through the server's interceptor.
+// Runs on the caller's task (which must be a task of the server's node).
+func (e *c15env) unary(api *apiServer, method string, ctx context.Context, req gproto.Message) (any, error) {
+	var ic grpc.UnaryServerInterceptor
+	if e.wire && e.installed {
+		ic = AuthzUnaryInterceptor
+		e.h.s.Count("probe.unary_interceptor")
+	}
+	for _, m := range client.API_ServiceDesc.Methods {
+		if m.MethodName == method {
+			return m.Handler(api, ctx, func(v any) error { return c15wireCopy(v, req) }, ic)
+		}
+	}
+	return nil, fmt.Errorf("harness: no method %s in the service descriptor", method)
+}
+
+// call runs one unary call by client who on the server's node and waits for it.
+func (e *c15env) call(method, who string, d time.Duration, variant int, req gproto.Message) (resp any, err error) {
+	ok := e.h.rpc(e.n, method, func(api *apiServer) {
+		ctx, cancel := e.ctx(who, d, variant)
+		defer cancel()
+		resp, err = e.unary(api, method, ctx, req)
+	})
+	if !ok && err == nil {
+		err = fmt.Errorf("harness: the server died during the call")
+	}
+	return
+}
+
+func c15streamHandler(name string) grpc.StreamHandler {
+	for _, s := range client.API_ServiceDesc.Streams {
+		if s.StreamName == name {
+			return s.Handler
+		}
+	}
+	return func(any, grpc.ServerStream) error {
+		return fmt.Errorf("harness: no stream %s in the service descriptor", name)
+	}
+}
+
+// c15subWire is the server side of a Subscribe call on the wire: the request is the first message received.
+type c15subWire struct {
+	*subStream
+	req *client.SubscribeRequest
+}
+
+func (w *c15subWire) RecvMsg(m any) error { return c15wireCopy(m, w.req) }
+
+// c15pubWire is the server side of a PublishAsync call on the wire.
+type c15pubWire struct{ *pubStream }
+
+func (w *c15pubWire) RecvMsg(m any) error {
+	r, err := w.pubStream.Recv()
+	if err != nil {
+		return err
+	}
+	return c15wireCopy(m, r)
+}
+
+// stream dispatches a streaming call like grpc.Server.processStreamingRPC: interceptor (if installed), generated handler.
+func (e *c15env) stream(api *apiServer, name string, ss grpc.ServerStream) error {
+	h := c15streamHandler(name)
+	if e.installed {
+		e.h.s.Count("probe.stream_interceptor")
+		return AuthzStreamInterceptor(api, ss, &grpc.StreamServerInfo{FullMethod: "/proto.API/" + name, IsServerStream: true, IsClientStream: name == "PublishAsync"}, h)
+	}
+	return h(api, ss)
+}
+
+// subscribe runs the Subscribe handler on the server's node until it returns.
+func (e *c15env) subscribe(ctx context.Context, req *client.SubscribeRequest) *subStream {
+	if !e.wire {
+		return e.h.subscribe(e.n, ctx, req)
+	}
+	st := newSubStream(ctx, e.h.s)
+	api := e.n.srv.api
+	e.h.s.GoNode(e.n.node, "rpc:subscribe", func() {
+		st.err = e.stream(api, "Subscribe", &c15subWire{subStream: st, req: req})
+		st.ended = true
+	})
+	return st
+}
+
+// publishAsync runs the PublishAsync handler on the caller's task until it returns.
+func (e *c15env) publishAsync(ps *pubStream) error {
+	if !e.wire {
+		return e.n.srv.api.PublishAsync(ps)
+	}
+	return e.stream(e.n.srv.api, "PublishAsync", &c15pubWire{ps})
 }
 
 func execC15(t *testing.T, prog *hx.Program, dec *simrt.Decider, verbose bool) *hx.Outcome {
@@ -109,23 +400,36 @@ func execC15(t *testing.T, prog *hx.Program, dec *simrt.Decider, verbose bool) *
 		policyPath := filepath.Join(h.dir, "policy.csv")
 		os.WriteFile(modelPath, []byte(c15Model), 0o644)
 		policy := map[string]bool{} // "who|resource|action"
+		flushPolicy := func() {
+			var b strings.Builder
+			for _, who := range []string{"admin", "bob"} {
+				for _, res := range c15Resources {
+					for _, act := range c15Actions {
+						if policy[who+"|"+res+"|"+act] {
+							fmt.Fprintf(&b, "p, %s, %s, %s\n", who, res, act)
+						}
+					}
+				}
+			}
+			for _, act := range c15Actions {
+				fmt.Fprintf(&b, "p, eve, nosuch, %s\n", act) // eve is known, but holds nothing on any resource that exists
+			}
+			os.WriteFile(policyPath, []byte(b.String()), 0o644)
+		}
 		writePolicy := func(seed uint64) {
 			r := simrt.NewRand(seed)
 			for k := range policy {
 				delete(policy, k)
 			}
-			var b strings.Builder
-			for _, res := range append(append([]string{}, c15Streams...), "*", "__cursors", "subj.foo") {
+			for _, res := range c15Resources {
 				for _, act := range c15Actions {
 					policy["admin|"+res+"|"+act] = true
-					fmt.Fprintf(&b, "p, admin, %s, %s\n", res, act)
 					if r.Pct(35) {
 						policy["bob|"+res+"|"+act] = true
-						fmt.Fprintf(&b, "p, bob, %s, %s\n", res, act)
 					}
 				}
 			}
-			os.WriteFile(policyPath, []byte(b.String()), 0o644)
+			flushPolicy()
 		}
 		writePolicy(uint64(prog.Param("policy", 1)))
 		certFile, keyFile, terr := testTLSFiles(h.dir)
@@ -134,54 +438,125 @@ func execC15(t *testing.T, prog *hx.Program, dec *simrt.Decider, verbose bool) *
 			return
 		}
 		nopolicy := prog.Param("nopolicy", 0) == 1
-		c15NoIdentity = nopolicy
-		defer func() { c15NoIdentity = false }()
-		h.cfgHook = func(n *simNode, c *Config) {
-			c.TLSCert, c.TLSKey = certFile, keyFile
-			c.TLSClientAuthz = true
-			if !nopolicy {
-				c.TLSClientAuthzModel = modelPath
-				c.TLSClientAuthzPolicy = policyPath
+		foo2 := prog.Param("foo2", 0) == 1
+		cfgfile := prog.Param("cfgfile", 0)
+		route := "programmatic"
+		if cfgfile > 0 {
+			// the documented way: a YAML file (documentation/authentication_authorization.md)
+			route = "file"
+			y := "tls:\n  key: " + keyFile + "\n  cert: " + certFile + "\n"
+			if cfgfile != 3 {
+				y += "  client.auth.enabled: true\n"
+				if cfgfile == 1 {
+					y += "  client.auth.ca: " + certFile + "\n"
+				}
+			} else {
+				route = "file-authz-only"
 			}
+			y += "  client.authz.enabled: true\n"
+			if !nopolicy {
+				y += "  client.authz.model: " + modelPath + "\n  client.authz.policy: " + policyPath + "\n"
+			}
+			cfgPath := filepath.Join(h.dir, "liftbridge.yaml")
+			os.WriteFile(cfgPath, []byte(y), 0o644)
+			h.baseConfig = func() *Config {
+				c, err := NewConfig(cfgPath)
+				if err != nil || c == nil {
+					h.oc.Trouble = fmt.Sprintf("configuration file: %v", err)
+					return NewDefaultConfig()
+				}
+				return c
+			}
+			h.s.Count("probe.config_file_route")
+		}
+		h.cfgHook = func(n *simNode, c *Config) {
+			if cfgfile == 0 {
+				c.TLSCert, c.TLSKey = certFile, keyFile
+				c.TLSClientAuthz = true
+				if !nopolicy {
+					c.TLSClientAuthzModel = modelPath
+					c.TLSClientAuthzPolicy = policyPath
+				}
+			}
+			c.Telemetry.Enabled = false
 			c.CursorsStream.Partitions = 1
 		}
 		n := h.single()
-		if n == nil {
+		if n == nil || h.oc.Trouble != "" {
 			return
+		}
+		env := &c15env{h: h, n: n, wire: prog.Param("wire", 0) == 1, installed: !nopolicy}
+		if env.wire {
+			h.s.Count("probe.wire_program")
 		}
 		if !h.pollFor("cursors-stream", 30*time.Second, func() bool { return n.srv.metadata.GetStream(cursorsStream) != nil }) {
 			h.oc.Trouble = "cursors stream was not created"
 			return
 		}
 		may := func(who, res, act string) bool { return !nopolicy && policy[who+"|"+res+"|"+act] }
+		// authorisation is in force, whichever way it was switched on: somebody the policy gives nothing is refused
+		if _, err := env.call("FetchMetadata", "eve", 5*time.Second, 0, &client.FetchMetadataRequest{}); err == nil {
+			h.fail("C15/not-in-force", "C15/not-in-force:"+route, "authorisation was enabled (%s) but client eve, who holds no policy entry for any existing resource, could call FetchMetadata", route)
+			return
+		}
+		h.oc.Checks++
 		// admin creates foo and bar and keeps a group subscription on bar
 		for _, name := range []string{"foo", "bar"} {
 			if nopolicy {
 				break // (nobody may create anything; the calls below all have to be refused)
 			}
-			var err error
-			h.rpc(n, "create", func(api *apiServer) {
-				ctx, cancel := c15ctx("admin", 10*time.Second)
-				defer cancel()
-				_, err = api.CreateStream(ctx, &client.CreateStreamRequest{Name: name, Subject: "subj." + name, Partitions: 1, ReplicationFactor: 1})
-			})
+			parts := int32(1)
+			if name == "foo" && foo2 {
+				parts = 2
+				h.s.Count("probe.foo_two_partitions")
+			}
+			_, err := env.call("CreateStream", "admin", 10*time.Second, 0, &client.CreateStreamRequest{Name: name, Subject: "subj." + name, Partitions: parts, ReplicationFactor: 1})
+			if c15refusal(err) {
+				h.fail("C15/allowed-refused", "C15/allowed-refused:setup-create", "admin holds every policy entry but could not create %s: %v", name, err)
+				return
+			}
 			if err != nil {
 				h.oc.Trouble = "admin could not create " + name + ": " + err.Error()
 				return
 			}
 		}
-		adminCtx, adminCancel := c15ctx("admin", time.Hour)
+		adminCtx, adminCancel := env.ctx("admin", time.Hour, 0)
 		defer adminCancel()
-		adminSub := h.subscribe(n, adminCtx, &client.SubscribeRequest{Stream: "bar", StartPosition: client.StartPosition_EARLIEST, Consumer: &client.Consumer{GroupId: "g", ConsumerId: "admin-1", GroupEpoch: 5}})
+		adminSub := env.subscribe(adminCtx, &client.SubscribeRequest{Stream: "bar", StartPosition: client.StartPosition_EARLIEST, Consumer: &client.Consumer{GroupId: "g", ConsumerId: "admin-1", GroupEpoch: 5}})
 		h.waitFor("admin-sub", 5*time.Second, func() bool { return adminSub.opened || adminSub.ended })
 		if !adminSub.opened && !nopolicy {
+			if c15refusal(adminSub.err) {
+				h.fail("C15/allowed-refused", "C15/allowed-refused:setup-subscribe", "admin holds every policy entry but its group subscription on bar was refused: %v", adminSub.err)
+				return
+			}
 			h.oc.Trouble = fmt.Sprintf("admin's group subscription did not start: %v", adminSub.err)
 			return
 		}
-		var bobGot int
-		var bobSubs []*subStream
-		digest := func() string {
+		var otherSubs []*subStream // subscriptions of everybody but admin
+		cursorKeys := []struct {
+			stream string
+			part   int32
+		}{{"foo", 0}, {"bar", 0}}
+		if foo2 {
+			cursorKeys = append(cursorKeys, struct {
+				stream string
+				part   int32
+			}{"foo", 1})
+		}
+		digest := func(withCursors bool) string {
 			var b strings.Builder
+			if withCursors {
+				// what a client entitled to see them is told about the cursors (first: a fetch may resume the cursors partition)
+				h.s.Count("probe.cursors_in_digest")
+				for _, ck := range cursorKeys {
+					resp, err := env.call("FetchCursor", "admin", 5*time.Second, 0, &client.FetchCursorRequest{Stream: ck.stream, Partition: ck.part, CursorId: "cur"})
+					if r, ok := resp.(*client.FetchCursorResponse); ok && err == nil {
+						fmt.Fprintf(&b, "cursor %s/%d=%d\n", ck.stream, ck.part, r.Offset)
+					} else {
+						fmt.Fprintf(&b, "cursor %s/%d: %v\n", ck.stream, ck.part, err)
+					}
+				}
+			}
 			names := []string{}
 			for _, s := range n.srv.metadata.GetStreams() {
 				names = append(names, s.GetName())
@@ -192,7 +567,17 @@ func execC15(t *testing.T, prog *hx.Program, dec *simrt.Decider, verbose bool) *
 				if st == nil {
 					continue
 				}
-				for _, p := range st.GetPartitions() {
+				fmt.Fprintf(&b, "%s resume-all=%v\n", name, st.GetResumeAll())
+				var ids []int
+				for id := range st.GetPartitions() {
+					ids = append(ids, int(id))
+				}
+				sort.Ints(ids)
+				for _, id := range ids {
+					p := st.GetPartition(int32(id))
+					if p == nil {
+						continue
+					}
 					fmt.Fprintf(&b, "%s/%d paused=%v readonly=%v ", name, p.Id, p.IsPaused(), p.IsReadonly())
 					if !p.IsPaused() {
 						msgs, _ := readCommitLog(p.log)
@@ -206,14 +591,23 @@ func execC15(t *testing.T, prog *hx.Program, dec *simrt.Decider, verbose bool) *
 			}
 			fmt.Fprintf(&b, "admin-sub open=%v got=%d\n", !adminSub.ended, len(adminSub.msgs))
 			got := 0
-			for _, s := range bobSubs {
+			for _, s := range otherSubs {
 				got += len(s.msgs)
 			}
-			fmt.Fprintf(&b, "bob-got=%d\n", got+bobGot)
+			fmt.Fprintf(&b, "others-got=%d\n", got)
 			return b.String()
 		}
 		settle := func() { simrt.Sleep(300 * time.Millisecond) }
-		created := 0
+		// sighup: what the process does when it receives SIGHUP (the documented hot reload): the statements of
+		// the tree's own signal handler, derived by the instrumenter (instr/derive.go) and run on the server's node
+		sighup := func() {
+			if !reloadAuthzSimDerived {
+				h.s.Count("probe.tree_has_no_sighup_reload")
+			}
+			h.s.Count("probe.sighup_reload")
+			h.do(n.node, "sighup", func() { n.srv.reloadAuthzSim() })
+		}
+		lastChange, lastChangeKind := "", "" // the policy entry the last reload took away or added
 		sessions := map[string]*pubStream{}
 		sessEnded := map[string]bool{}
 		var sessCancel []context.CancelFunc
@@ -229,24 +623,35 @@ func execC15(t *testing.T, prog *hx.Program, dec *simrt.Decider, verbose bool) *
 			if h.stop {
 				break
 			}
-			if op.K == "reload" && nopolicy {
-				continue
-			}
-			if op.K == "reload" {
-				writePolicy(uint64(op.Arg(0, 1)))
-				h.do(n.node, "reload", func() {
-					// what the SIGHUP handler does (signal.go)
-					n.srv.authzEnforcer.authzLock.Lock()
-					err := n.srv.authzEnforcer.enforcer.LoadPolicy()
-					n.srv.authzEnforcer.authzLock.Unlock()
-					if err != nil {
-						h.oc.Trouble = "policy reload: " + err.Error()
+			switch op.K {
+			case "reload", "revoke", "grant":
+				if nopolicy {
+					continue // (no enforcer: nothing to reload)
+				}
+				lastChange, lastChangeKind = "", ""
+				if op.K == "reload" {
+					writePolicy(uint64(op.Arg(0, 1)))
+				} else {
+					lastChange = "bob|" + c15Resources[int(op.Arg(0, 0))%len(c15Resources)] + "|" + op.S
+					lastChangeKind = op.K
+					if op.K == "grant" {
+						policy[lastChange] = true
+					} else {
+						delete(policy, lastChange)
 					}
-				})
-				h.s.Logf("op %d policy reloaded", i)
+					flushPolicy()
+				}
+				sighup()
+				h.s.Logf("op %d %s %s: policy reloaded", i, op.K, lastChange)
 				continue
 			}
 			who := op.S
+			ident := who
+			if who == "anon" {
+				ident = ""
+			}
+			variant := int(op.Arg(1, 0))
+			shape := op.Arg(2, 0)
 			stream := c15Streams[op.Arg(0, 0)%2] // foo or bar
 			if n.srv.metadata.GetStream(stream) == nil {
 				stream = "foo"
@@ -254,68 +659,100 @@ func execC15(t *testing.T, prog *hx.Program, dec *simrt.Decider, verbose bool) *
 					continue
 				}
 			}
-			settle()
-			before := digest()
 			var err error
 			action, resource := "", stream
 			extra := ""
-			h.s.Logf("op %d %s by %s on %s", i, op.K, who, stream)
+			cursorOp := op.K == "setcursor" || op.K == "fetchcursor"
+			withCursors := cursorOp || prog.Param("curdigest", 0) == 1
+			// partition addressed by the request (foo's second partition in some requests when it has one)
+			partOf := func(s string) int32 {
+				if foo2 && s == "foo" && shape&16 != 0 {
+					h.s.Count("probe.shape.partition_1")
+					return 1
+				}
+				return 0
+			}
+			ackPolicy := func() client.AckPolicy {
+				switch shape & 3 {
+				case 1:
+					h.s.Count("probe.shape.ack_none")
+					return client.AckPolicy_NONE
+				case 2:
+					return client.AckPolicy_ALL
+				}
+				return client.AckPolicy_LEADER
+			}
+			deadline := func(d time.Duration) time.Duration {
+				if shape&4 != 0 {
+					h.s.Count("probe.shape.no_deadline")
+					return 0
+				}
+				return d
+			}
+			// the op's own preparation (before the digest is taken)
 			switch op.K {
 			case "create":
-				created++
-				resource = fmt.Sprintf("new") // policy names the resource "new"; every created stream uses that name once
 				if n.srv.metadata.GetStream("new") != nil {
 					continue
 				}
-				action = "CreateStream"
-				h.rpc(n, op.K, func(api *apiServer) {
-					ctx, cancel := c15ctx(who, 10*time.Second)
-					defer cancel()
-					_, err = api.CreateStream(ctx, &client.CreateStreamRequest{Name: "new", Subject: "subj.new", Partitions: 1, ReplicationFactor: 1})
-				})
 			case "delete":
-				action = "DeleteStream"
-				if stream == "bar" || n.srv.metadata.GetStream("new") != nil {
-					resource = "new" // keep foo/bar (admin's subscription lives on bar); delete "new" when it exists
-					if n.srv.metadata.GetStream("new") == nil {
-						continue
-					}
-				} else {
+				if n.srv.metadata.GetStream("new") == nil {
+					continue // keep foo/bar (admin's subscription lives on bar); delete "new" when it exists
+				}
+			case "pause", "readonly", "subresume":
+				stream, resource = "foo", "foo"
+				if n.srv.metadata.GetStream("foo") == nil && !nopolicy {
 					continue
 				}
-				h.rpc(n, op.K, func(api *apiServer) {
-					ctx, cancel := c15ctx(who, 10*time.Second)
-					defer cancel()
-					_, err = api.DeleteStream(ctx, &client.DeleteStreamRequest{Name: resource})
-				})
+			case "subgroup":
+				stream, resource = "bar", "bar"
+			}
+			settle()
+			before := digest(withCursors)
+			pausedBefore, nonEmptyBefore := false, false
+			if st := n.srv.metadata.GetStream(stream); st != nil {
+				if p := st.GetPartition(partOf(stream)); p != nil {
+					pausedBefore = p.IsPaused()
+					nonEmptyBefore = !pausedBefore && p.log.HighWatermark() >= 0
+				}
+			}
+			h.s.Logf("op %d %s by %s on %s shape=%d", i, op.K, who, stream, shape)
+			switch op.K {
+			case "create":
+				resource = "new" // policy names the resource "new"; every created stream uses that name once
+				action = "CreateStream"
+				_, err = env.call(action, ident, 10*time.Second, variant, &client.CreateStreamRequest{Name: "new", Subject: "subj.new", Partitions: 1, ReplicationFactor: 1})
+			case "delete":
+				action, resource = "DeleteStream", "new"
+				_, err = env.call(action, ident, 10*time.Second, variant, &client.DeleteStreamRequest{Name: "new"})
 			case "pause":
 				action = "PauseStream"
-				if stream == "bar" {
-					stream, resource = "foo", "foo"
+				req := &client.PauseStreamRequest{Name: stream}
+				if shape&32 != 0 {
+					req.Partitions = []int32{partOf(stream)}
+					h.s.Count("probe.shape.pause_partitions")
 				}
-				h.rpc(n, op.K, func(api *apiServer) {
-					ctx, cancel := c15ctx(who, 10*time.Second)
-					defer cancel()
-					_, err = api.PauseStream(ctx, &client.PauseStreamRequest{Name: stream})
-				})
+				if shape&64 != 0 {
+					req.ResumeAll = true
+					h.s.Count("probe.shape.pause_resume_all")
+				}
+				_, err = env.call(action, ident, 10*time.Second, variant, req)
 			case "readonly":
 				action = "SetStreamReadonly"
-				if stream == "bar" {
-					stream, resource = "foo", "foo"
+				req := &client.SetStreamReadonlyRequest{Name: stream, Readonly: op.Arg(1, 0)%2 == 0}
+				if shape&32 != 0 {
+					req.Partitions = []int32{partOf(stream)}
+					h.s.Count("probe.shape.readonly_partitions")
 				}
-				ro := op.Arg(1, 0)%2 == 0
-				h.rpc(n, op.K, func(api *apiServer) {
-					ctx, cancel := c15ctx(who, 10*time.Second)
-					defer cancel()
-					_, err = api.SetStreamReadonly(ctx, &client.SetStreamReadonlyRequest{Name: stream, Readonly: ro})
-				})
+				_, err = env.call(action, ident, 10*time.Second, variant, req)
 			case "publish":
 				action = "Publish"
-				h.rpc(n, op.K, func(api *apiServer) {
-					ctx, cancel := c15ctx(who, 3*time.Second)
-					defer cancel()
-					_, err = api.Publish(ctx, &client.PublishRequest{Stream: stream, Value: []byte(fmt.Sprintf("%s-%d", who, i)), AckPolicy: client.AckPolicy_LEADER})
-				})
+				req := &client.PublishRequest{Stream: stream, Partition: partOf(stream), Value: []byte(fmt.Sprintf("%s-%d", who, i)), AckPolicy: ackPolicy()}
+				if shape&8 != 0 {
+					req.AckInbox = fmt.Sprintf("c15.acks.%d", i)
+					h.s.Count("probe.shape.ack_inbox")
+				}
+				_, err = env.call(action, ident, deadline(3*time.Second), variant, req)
 			case "publishasync":
 				action = "Publish"
 				if op.Arg(1, 0)%2 == 0 {
@@ -323,15 +760,15 @@ func execC15(t *testing.T, prog *hx.Program, dec *simrt.Decider, verbose bool) *
 					// every message on it is authorised (or not) by the policy in force when it is sent
 					ps := sessions[who]
 					if ps == nil || sessEnded[who] {
-						sctx, scancel := c15ctx(who, time.Hour)
+						sctx, scancel := env.ctx(ident, time.Hour, variant)
 						ps = &pubStream{ctx: sctx, sim: h.s}
 						sessions[who], sessEnded[who] = ps, false
 						sessCancel = append(sessCancel, scancel)
 						w := who
-						h.s.GoNode(n.node, "rpc:publishasync-session", func() { n.srv.api.PublishAsync(ps); sessEnded[w] = true })
+						h.s.GoNode(n.node, "rpc:publishasync-session", func() { env.publishAsync(ps); sessEnded[w] = true })
 					}
 					nout := len(ps.out)
-					ps.in = append(ps.in, &client.PublishRequest{Stream: stream, Value: []byte(fmt.Sprintf("%s-session-%d", who, i)), AckPolicy: client.AckPolicy_LEADER, CorrelationId: fmt.Sprintf("s%d", i)})
+					ps.in = append(ps.in, &client.PublishRequest{Stream: stream, Partition: partOf(stream), Value: []byte(fmt.Sprintf("%s-session-%d", who, i)), AckPolicy: ackPolicy(), CorrelationId: fmt.Sprintf("s%d", i)})
 					w := who
 					h.waitFor("session-resp", 2*time.Second, func() bool { return len(ps.out) > nout || sessEnded[w] })
 					for _, r := range ps.out[nout:] {
@@ -348,11 +785,11 @@ func execC15(t *testing.T, prog *hx.Program, dec *simrt.Decider, verbose bool) *
 					}
 					break
 				}
-				ctx, cancel := c15ctx(who, 3*time.Second)
-				ps := &pubStream{ctx: ctx, sim: h.s, in: []*client.PublishRequest{{Stream: stream, Value: []byte(fmt.Sprintf("%s-async-%d", who, i)), AckPolicy: client.AckPolicy_LEADER, CorrelationId: fmt.Sprintf("c%d", i)}}}
+				ctx, cancel := env.ctx(ident, 3*time.Second, variant)
+				ps := &pubStream{ctx: ctx, sim: h.s, in: []*client.PublishRequest{{Stream: stream, Partition: partOf(stream), Value: []byte(fmt.Sprintf("%s-async-%d", who, i)), AckPolicy: ackPolicy(), CorrelationId: fmt.Sprintf("c%d", i)}}}
 				done := false
 				var serr error
-				h.s.GoNode(n.node, "rpc:publishasync", func() { serr = n.srv.api.PublishAsync(ps); done = true })
+				h.s.GoNode(n.node, "rpc:publishasync", func() { serr = env.publishAsync(ps); done = true })
 				h.waitFor("async-resp", 2*time.Second, func() bool { return len(ps.out) > 0 || done })
 				ps.done = true
 				h.waitFor("async-end", 5*time.Second, func() bool { return done })
@@ -369,30 +806,27 @@ func execC15(t *testing.T, prog *hx.Program, dec *simrt.Decider, verbose bool) *
 			case "pubsubject":
 				action = "PublishToSubject"
 				resource = "subj.foo"
-				h.rpc(n, op.K, func(api *apiServer) {
-					ctx, cancel := c15ctx(who, 3*time.Second)
-					defer cancel()
-					_, err = api.PublishToSubject(ctx, &client.PublishToSubjectRequest{Subject: "subj.foo", Value: []byte(fmt.Sprintf("%s-subj-%d", who, i)), AckPolicy: client.AckPolicy_LEADER})
-				})
+				_, err = env.call(action, ident, deadline(3*time.Second), variant, &client.PublishToSubjectRequest{Subject: "subj.foo", Value: []byte(fmt.Sprintf("%s-subj-%d", who, i)), AckPolicy: ackPolicy()})
 			case "subscribe", "subresume", "subgroup":
 				action = "Subscribe"
-				req := &client.SubscribeRequest{Stream: stream, StartPosition: client.StartPosition_EARLIEST}
+				req := &client.SubscribeRequest{Stream: stream, Partition: partOf(stream), StartPosition: client.StartPosition_EARLIEST}
 				if op.K == "subresume" {
-					req.Stream, stream, resource = "foo", "foo", "foo"
 					req.Resume = true
 				}
 				if op.K == "subgroup" {
-					req.Stream, stream, resource = "bar", "bar", "bar"
 					req.Consumer = &client.Consumer{GroupId: "g", ConsumerId: who + "-c", GroupEpoch: 5 + uint64(op.Arg(1, 0)%2)}
+				} else if shape&128 != 0 {
+					req.ReadISRReplica = true
+					h.s.Count("probe.shape.read_isr_replica")
 				}
-				ctx, cancel := c15ctx(who, 2*time.Second)
-				st := h.subscribe(n, ctx, req)
+				ctx, cancel := env.ctx(ident, 2*time.Second, variant)
+				st := env.subscribe(ctx, req)
 				h.waitFor("sub", 3*time.Second, func() bool { return st.ended })
 				cancel()
 				h.waitFor("sub-end", 3*time.Second, func() bool { return st.ended })
 				err = st.err
-				if who == "bob" {
-					bobSubs = append(bobSubs, st)
+				if who != "admin" {
+					otherSubs = append(otherSubs, st)
 				}
 				if st.opened && st.err == nil {
 					err = nil
@@ -400,67 +834,70 @@ func execC15(t *testing.T, prog *hx.Program, dec *simrt.Decider, verbose bool) *
 				if op.K == "subgroup" && who == "admin" {
 					// admin replaced its own group subscription: start following the new one is not needed; re-establish
 					if adminSub.ended {
-						adminSub = h.subscribe(n, adminCtx, &client.SubscribeRequest{Stream: "bar", StartPosition: client.StartPosition_EARLIEST, Consumer: &client.Consumer{GroupId: "g", ConsumerId: "admin-1", GroupEpoch: 9}})
+						adminSub = env.subscribe(adminCtx, &client.SubscribeRequest{Stream: "bar", StartPosition: client.StartPosition_EARLIEST, Consumer: &client.Consumer{GroupId: "g", ConsumerId: "admin-1", GroupEpoch: 9}})
 						h.waitFor("admin-sub", 5*time.Second, func() bool { return adminSub.opened || adminSub.ended })
 					}
 				}
 			case "setcursor":
 				action = "SetCursor"
-				h.rpc(n, op.K, func(api *apiServer) {
-					ctx, cancel := c15ctx(who, 5*time.Second)
-					defer cancel()
-					_, err = api.SetCursor(ctx, &client.SetCursorRequest{Stream: stream, Partition: 0, CursorId: "cur", Offset: int64(i)})
-				})
+				_, err = env.call(action, ident, 5*time.Second, variant, &client.SetCursorRequest{Stream: stream, Partition: partOf(stream), CursorId: "cur", Offset: int64(i)})
 			case "fetchcursor":
 				action = "FetchCursor"
-				h.rpc(n, op.K, func(api *apiServer) {
-					ctx, cancel := c15ctx(who, 5*time.Second)
-					defer cancel()
-					_, err = api.FetchCursor(ctx, &client.FetchCursorRequest{Stream: stream, Partition: 0, CursorId: "cur"})
-				})
+				_, err = env.call(action, ident, 5*time.Second, variant, &client.FetchCursorRequest{Stream: stream, Partition: partOf(stream), CursorId: "cur"})
 			case "metadata":
 				action, resource = "FetchMetadata", "*"
-				h.rpc(n, op.K, func(api *apiServer) {
-					ctx, cancel := c15ctx(who, 5*time.Second)
-					defer cancel()
-					_, err = api.FetchMetadata(ctx, &client.FetchMetadataRequest{})
-				})
+				_, err = env.call(action, ident, 5*time.Second, variant, &client.FetchMetadataRequest{})
 			case "partmeta":
 				action = "FetchPartitionMetadata"
-				h.rpc(n, op.K, func(api *apiServer) {
-					ctx, cancel := c15ctx(who, 5*time.Second)
-					defer cancel()
-					_, err = api.FetchPartitionMetadata(ctx, &client.FetchPartitionMetadataRequest{Stream: stream, Partition: 0})
-				})
+				_, err = env.call(action, ident, 5*time.Second, variant, &client.FetchPartitionMetadataRequest{Stream: stream, Partition: partOf(stream)})
 			default:
 				continue
 			}
 			if h.oc.Trouble != "" {
 				return
 			}
-			permitted := may(who, resource, action)
+			permitted := may(ident, resource, action)
+			changed := lastChange == ident+"|"+resource+"|"+action // the last reload was about this very right
 			if op.K == "setcursor" {
 				// documented: to use cursors the client must also hold permissions on the __cursors stream
-				permitted = permitted && may(who, "__cursors", "Publish")
+				permitted = permitted && may(ident, "__cursors", "Publish")
+				changed = changed || lastChange == ident+"|__cursors|Publish"
 			}
 			if permitted {
 				allowedCalls++
-				if err != nil && strings.Contains(err.Error(), "not authorized") {
-					h.fail("C15/allowed-refused", "C15/allowed-refused:"+op.K, "%s by %s on %s is allowed by the policy in force but was refused: %v", op.K, who, resource, err)
+				sig := "C15/allowed-refused:" + op.K
+				if changed && lastChangeKind == "grant" {
+					h.s.Count("probe.call_after_grant")
+					sig += "/after-grant"
+				}
+				if c15refusal(err) {
+					h.fail("C15/allowed-refused", sig, "%s by %s on %s is allowed by the policy in force but was refused: %v", op.K, who, resource, err)
 				}
 				continue
 			}
 			denied++
 			h.oc.Checks++
+			h.s.Count("probe.denied." + who)
+			suffix := ""
+			if changed && lastChangeKind == "revoke" {
+				h.s.Count("probe.denied_after_revoke")
+				suffix = "/after-revoke"
+			}
+			if pausedBefore && (op.K == "publish" || op.K == "publishasync" || op.K == "subresume") {
+				h.s.Count("probe.denied_on_paused." + op.K)
+			}
+			if nonEmptyBefore && op.K == "subscribe" {
+				h.s.Count("probe.denied_subscribe_on_nonempty_stream")
+			}
 			if err == nil {
-				h.fail("C15/not-refused", "C15/not-refused:"+op.K, "%s by %s on %s: the policy has no (%s, %s, %s) entry but the call succeeded%s", op.K, who, resource, who, resource, action, extra)
+				h.fail("C15/not-refused", "C15/not-refused:"+op.K+suffix, "%s by %s on %s: the policy has no (%s, %s, %s) entry but the call succeeded%s", op.K, who, resource, ident, resource, action, extra)
 				break
 			}
 			settle()
-			after := digest()
+			after := digest(withCursors)
 			h.oc.Checks++
 			if after != before {
-				h.fail("C15/effect", "C15/effect:"+op.K, "%s by %s on %s was refused (%v) but changed the state:\n--- before\n%s--- after\n%s", op.K, who, resource, err, before, after)
+				h.fail("C15/effect", "C15/effect:"+op.K+suffix, "%s by %s on %s was refused (%v) but changed the state:\n--- before\n%s--- after\n%s", op.K, who, resource, err, before, after)
 			}
 		}
 		adminCancel()
